@@ -162,7 +162,7 @@ theorem TmpIn.sub {a a' : List Bool} {x : Reg} (h : TmpIn a' x) (hs : Sub a a') 
 
 /-- `H`: the (final) handle table; `L`: the (final) table of array lengths; `act`/`mu`: the register
 flags of the memory manager at this point of the compilation -/
-structure Rel (H : List (Reg × Bool)) (L : List Nat) (act mu : List Bool) (hs : HSt) (ts : St) : Prop where
+structure Rel (H : List (Reg × Bool)) (L MH : List Nat) (act mu : List Bool) (hs : HSt) (ts : St) : Prop where
   arrs : ts.arrs = hs.arrs
   trace : ts.trace = hs.trace
   outs : ts.outcomes = hs.outcomes
@@ -170,34 +170,36 @@ structure Rel (H : List (Reg × Bool)) (L : List Nat) (act mu : List Bool) (hs :
   inj : ∀ h1 h2 v1 v2 r b1 b2, hs.hregs h1 = some v1 → hs.hregs h2 = some v2 →
     H[h1]? = some (r, b1) → H[h2]? = some (r, b2) → h1 = h2
   lens : ∀ a n, L[a]? = some n → ∃ l, hs.arrs a = some l ∧ l.length = n
+  /-- the live handles that sit in measurement registers are the ones recorded in `MH` -/
+  mh : ∀ h v r b, hs.hregs h = some v → H[h]? = some (r, b) → r.bank = 3 → h ∈ MH
 
-theorem Rel.tmp {H : List (Reg × Bool)} {L : List Nat} {act mu : List Bool} {hs : HSt} {ts ts' : St}
-    (h : Rel H L act mu hs ts) (ht : TmpEq act ts ts') : Rel H L act mu hs ts' :=
+theorem Rel.tmp {H : List (Reg × Bool)} {L MH : List Nat} {act mu : List Bool} {hs : HSt} {ts ts' : St}
+    (h : Rel H L MH act mu hs ts) (ht : TmpEq act ts ts') : Rel H L MH act mu hs ts' :=
   ⟨ht.arrs.trans h.arrs, ht.trace.trans h.trace, ht.outs.trans h.outs,
    fun hh v hv => by
      obtain ⟨r, b, h1, h2, h3⟩ := h.regs hh v hv
      exact ⟨r, b, h1, (ht.regs r h3.not_tmp).trans h2, h3⟩,
-   h.inj, h.lens⟩
+   h.inj, h.lens, h.mh⟩
 
-theorem Rel.reg_val {H : List (Reg × Bool)} {L : List Nat} {act mu : List Bool} {hs : HSt} {ts : St}
-    (h : Rel H L act mu hs ts) {hh : Nat} {v : Int} {r : Reg} {b : Bool}
+theorem Rel.reg_val {H : List (Reg × Bool)} {L MH : List Nat} {act mu : List Bool} {hs : HSt} {ts : St}
+    (h : Rel H L MH act mu hs ts) {hh : Nat} {v : Int} {r : Reg} {b : Bool}
     (hv : hs.hregs hh = some v) (hH : H[hh]? = some (r, b)) : ts.regs r = some v ∧ Prot act mu r := by
   obtain ⟨r', b', h1, h2, h3⟩ := h.regs hh v hv
   rw [hH] at h1; cases h1
   exact ⟨h2, h3⟩
 
-theorem Rel.setReg_unprot {H : List (Reg × Bool)} {L : List Nat} {act mu : List Bool} {hs : HSt} {ts : St}
-    (h : Rel H L act mu hs ts) {r : Reg} (hr : ¬ Prot act mu r) (v : Int) : Rel H L act mu hs (ts.setReg r v) :=
+theorem Rel.setReg_unprot {H : List (Reg × Bool)} {L MH : List Nat} {act mu : List Bool} {hs : HSt} {ts : St}
+    (h : Rel H L MH act mu hs ts) {r : Reg} (hr : ¬ Prot act mu r) (v : Int) : Rel H L MH act mu hs (ts.setReg r v) :=
   ⟨h.arrs, h.trace, h.outs,
    fun hh x hx => by
      obtain ⟨r', b, h1, h2, h3⟩ := h.regs hh x hx
      have : r' ≠ r := by intro e; subst e; exact hr h3
      exact ⟨r', b, h1, by rw [St.setReg_regs_ne _ _ this]; exact h2, h3⟩,
-   h.inj, h.lens⟩
+   h.inj, h.lens, h.mh⟩
 
-theorem Rel.setArr {H : List (Reg × Bool)} {L : List Nat} {act mu : List Bool} {hs : HSt} {ts : St}
-    (h : Rel H L act mu hs ts) {a : Nat} {l l' : List (Option Int)} (ha : hs.arrs a = some l)
-    (hl : l'.length = l.length) : Rel H L act mu (hs.setArr a l') (ts.setArr a l') :=
+theorem Rel.setArr {H : List (Reg × Bool)} {L MH : List Nat} {act mu : List Bool} {hs : HSt} {ts : St}
+    (h : Rel H L MH act mu hs ts) {a : Nat} {l l' : List (Option Int)} (ha : hs.arrs a = some l)
+    (hl : l'.length = l.length) : Rel H L MH act mu (hs.setArr a l') (ts.setArr a l') :=
   ⟨by simp [St.setArr, HSt.setArr, h.arrs], h.trace, h.outs, h.regs, h.inj,
    fun a' n hn => by
      obtain ⟨l0, h0, h1⟩ := h.lens a' n hn
@@ -205,14 +207,22 @@ theorem Rel.setArr {H : List (Reg × Bool)} {L : List Nat} {act mu : List Bool} 
      · subst e
        rw [ha] at h0; cases h0
        exact ⟨l', by simp [HSt.setArr], by rw [hl, h1]⟩
-     · exact ⟨l0, by simp [HSt.setArr, e, h0], h1⟩⟩
+     · exact ⟨l0, by simp [HSt.setArr, e, h0], h1⟩,
+   h.mh⟩
 
 /-- binding a fresh handle to a register that nobody owns -/
-theorem Rel.bind {H : List (Reg × Bool)} {L : List Nat} {act act' mu mu' : List Bool} {hs : HSt} {ts : St}
-    (h : Rel H L act mu hs ts) {nh : Nat} {r : Reg} {b : Bool} (hH : H[nh]? = some (r, b))
-    (hr : ¬ Prot act mu r) (hp : Prot act' mu' r) (hsub : ∀ x, Prot act mu x → Prot act' mu' x) (v : Int) :
-    Rel H L act' mu' (hs.setH nh v) (ts.setReg r v) := by
-  refine ⟨h.arrs, h.trace, h.outs, ?_, ?_, h.lens⟩
+theorem Rel.bind {H : List (Reg × Bool)} {L MH MH' : List Nat} {act act' mu mu' : List Bool} {hs : HSt} {ts : St}
+    (h : Rel H L MH act mu hs ts) {nh : Nat} {r : Reg} {b : Bool} (hH : H[nh]? = some (r, b))
+    (hr : ¬ Prot act mu r) (hp : Prot act' mu' r) (hsub : ∀ x, Prot act mu x → Prot act' mu' x) (v : Int)
+    (hMH : ∀ x, x ∈ MH → x ∈ MH') (hnew : r.bank = 3 → nh ∈ MH') :
+    Rel H L MH' act' mu' (hs.setH nh v) (ts.setReg r v) := by
+  refine ⟨h.arrs, h.trace, h.outs, ?_, ?_, h.lens, ?_⟩
+  rotate_left 2
+  · intro hh x r0 b0 hx hH0 hb0
+    by_cases e : hh = nh
+    · subst e; rw [hH] at hH0; cases hH0; exact hnew hb0
+    · simp [HSt.setH, e] at hx
+      exact hMH _ (h.mh hh x r0 b0 hx hH0 hb0)
   · intro hh x hx
     by_cases e : hh = nh
     · subst e
@@ -242,11 +252,17 @@ theorem Rel.bind {H : List (Reg × Bool)} {L : List Nat} {act act' mu mu' : List
         exact h.inj h1 h2 v1 v2 r0 b1 b2 hv1 hv2 hH1 hH2
 
 /-- a handle dies and its register is given back -/
-theorem Rel.unbind {H : List (Reg × Bool)} {L : List Nat} {act mu : List Bool} {hs : HSt} {ts : St}
-    {i : Nat} (h : Rel H L (act.set i true) mu hs ts) {nh : Nat} {b : Bool} {v : Int}
+theorem Rel.unbind {H : List (Reg × Bool)} {L MH : List Nat} {act mu : List Bool} {hs : HSt} {ts : St}
+    {i : Nat} (h : Rel H L MH (act.set i true) mu hs ts) {nh : Nat} {b : Bool} {v : Int}
     (hH : H[nh]? = some (R i, b)) (hv : hs.hregs nh = some v) :
-    Rel H L act mu (hs.clearH nh) ts := by
-  refine ⟨h.arrs, h.trace, h.outs, ?_, ?_, h.lens⟩
+    Rel H L MH act mu (hs.clearH nh) ts := by
+  refine ⟨h.arrs, h.trace, h.outs, ?_, ?_, h.lens, ?_⟩
+  rotate_left 2
+  · intro hh x r0 b0 hx hH0 hb0
+    by_cases e : hh = nh
+    · subst e; simp [HSt.clearH] at hx
+    · simp [HSt.clearH, e] at hx
+      exact h.mh hh x r0 b0 hx hH0 hb0
   · intro hh x hx
     by_cases e : hh = nh
     · subst e; simp [HSt.clearH] at hx
@@ -274,11 +290,17 @@ theorem Rel.unbind {H : List (Reg × Bool)} {L : List Nat} {act mu : List Bool} 
         exact h.inj h1 h2 v1 v2 r0 b1 b2 hv1 hv2 hH1 hH2
 
 /-- a live handle and its register are updated together -/
-theorem Rel.setBoth {H : List (Reg × Bool)} {L : List Nat} {act mu : List Bool} {hs : HSt} {ts : St}
-    (h : Rel H L act mu hs ts) {hh : Nat} {r : Reg} {b : Bool} {x : Int} (hv : hs.hregs hh = some x)
-    (hH : H[hh]? = some (r, b)) (v : Int) : Rel H L act mu (hs.setH hh v) (ts.setReg r v) := by
+theorem Rel.setBoth {H : List (Reg × Bool)} {L MH : List Nat} {act mu : List Bool} {hs : HSt} {ts : St}
+    (h : Rel H L MH act mu hs ts) {hh : Nat} {r : Reg} {b : Bool} {x : Int} (hv : hs.hregs hh = some x)
+    (hH : H[hh]? = some (r, b)) (v : Int) : Rel H L MH act mu (hs.setH hh v) (ts.setReg r v) := by
   have hp := (h.reg_val hv hH).2
-  refine ⟨h.arrs, h.trace, h.outs, ?_, ?_, h.lens⟩
+  refine ⟨h.arrs, h.trace, h.outs, ?_, ?_, h.lens, ?_⟩
+  rotate_left 2
+  · intro h' x' r0 b0 hx' hH0 hb0
+    by_cases e : h' = hh
+    · subst e; exact h.mh h' x r0 b0 hv hH0 hb0
+    · simp [HSt.setH, e] at hx'
+      exact h.mh h' x' r0 b0 hx' hH0 hb0
   · intro h' x' hx'
     by_cases e : h' = hh
     · subst e
